@@ -119,7 +119,7 @@ def frame_variants(name, ft, asp, ep, role):
                 elif k == "b":
                     out.append(pk(ep, enc_frame(tpl, {j: b"\xff" * len(v)}), "f%d-ff" % j))
         elif asp == "trunc":
-            full = enc_frame(tpl, size=2) if tpl[1] and all(k in "vd" for k, _ in tpl[1]) and ft not in ("crypto", "stream", "new_token", "close_transport", "close_app", "datagram_len") else base
+            full = enc_frame(tpl, size=4) if tpl[1] and all(k in "vd" for k, _ in tpl[1]) and ft not in ("crypto", "stream", "new_token", "close_transport", "close_app", "datagram_len") else base
             for body in {base, full}:
                 for cut in range(1, len(body)):
                     out.append(pk(ep, body[:cut], "cut%d/%d" % (cut, len(body))))
@@ -337,7 +337,8 @@ def random_frames(rnd, role, n, fatal_p=0.0, tp=None):
         sid = rnd.choice([s["peer_bidi"], s["peer_bidi"] + 4, s["peer_uni"], s["own_bidi"]])
         if rnd.random() < fatal_p:
             tpl = (tp or templates(role))[rnd.choice(sorted(templates(role)))]
-            f = enc_frame(tpl, {rnd.randrange(max(1, len(tpl[1]))): rnd.choice(BV)} if tpl[1] and tpl[1][0][0] == "v" else None)
+            vi = [j for j, (k_, _) in enumerate(tpl[1]) if k_ == "v"]
+            f = enc_frame(tpl, {rnd.choice(vi): rnd.choice(BV)} if vi else None)
             out += f[:rnd.randrange(1, len(f) + 1)] if rnd.random() < 0.3 else f
             continue
         if c < 0.25:
